@@ -372,8 +372,10 @@ Proof.
   clear - Hf Hp.
   induction pre as [|e pre IH]; cbn in *.
   - exact Hf.
-  - pose proof (Hp e (or_introl eq_refl)) as He. destruct e; try contradiction;
-      apply IH; auto.
+  - pose proof (Hp e (or_introl eq_refl)) as He.
+    assert (Hp' : forall e0, In e0 pre -> match e0 with Return _ => False | _ => True end)
+      by (intros e0 H0; apply Hp; right; exact H0).
+    destruct e; try contradiction; apply IH; assumption.
 Qed.
 
 Lemma backoff_lower_bound : forall p h draws c pick, fvalid p ->
@@ -520,12 +522,11 @@ Qed.
 
 (** with a pool timeout, an attempt whose backend never answers ends as 408 / timeout *)
 Lemma timeout_is_408 : forall pl rq, pool_ok pl -> pl_timeout pl = true ->
-  let out := pool_handle pl true rq in
-  let last := (po_attempts out - 1)%nat in
-  rq_script rq last = SBlock -> ctx_done (rq_cancel rq) last = false ->
-  po_result out = PResult RTimeout 408.
+  rq_script rq (po_attempts (pool_handle pl true rq) - 1)%nat = SBlock ->
+  ctx_done (rq_cancel rq) (po_attempts (pool_handle pl true rq) - 1)%nat = false ->
+  po_result (pool_handle pl true rq) = PResult RTimeout 408.
 Proof.
-  intros pl rq Hok Ht out last Hs Hc. unfold out, last in *.
+  intros pl rq Hok Ht Hs Hc.
   destruct (pool_handle_permitted pl rq) as [Er Ea]. rewrite Er. rewrite Ea in Hs, Hc.
   rewrite (handler_final pl rq Hok). unfold attempt_outcome. rewrite Hs, Hc, Ht. reflexivity.
 Qed.
@@ -588,18 +589,21 @@ Proof.
   destruct (cb_wrap_records_once (handler_trace pl rq) Hf) as [-> _].
   rewrite (handler_final pl rq Hok) in *.
   destruct (attempt_outcome pl rq _) as [c|c r| |] eqn:E; try reflexivity.
-  apply attempt_outcome_err in E. destruct r; try reflexivity. contradiction.
+  - apply attempt_outcome_err in E. destruct r; try reflexivity. contradiction.
+  - exfalso. apply Hf. reflexivity.
 Qed.
 
 Lemma breaker_rejected : forall pl rq, pl_cb pl = true ->
-  pool_handle pl false rq =
-  {| po_result := PResult RShortCircuited 503; po_attempts := 0; po_records := [] |}.
-Proof. intros pl rq Hcb. unfold pool_handle, pool_trace. rewrite Hcb. reflexivity. Qed.
+  po_result (pool_handle pl false rq) = PResult RShortCircuited 503 /\
+  po_attempts (pool_handle pl false rq) = 0%nat /\
+  po_records (pool_handle pl false rq) = [].
+Proof. intros pl rq Hcb. unfold pool_handle, pool_trace. rewrite Hcb. repeat split; reflexivity. Qed.
 
 (** a run of client requests: as many records as client requests *)
 Lemma breaker_run_records : forall pl rqs, pl_cb pl = true -> pool_ok pl ->
   (forall rq, In rq rqs -> po_result (pool_handle pl true rq) <> PHang) ->
-  total_records (pool_run pl rqs) = List.length rqs /  failed_records (pool_run pl rqs) =
+  total_records (pool_run pl rqs) = List.length rqs /\
+  failed_records (pool_run pl rqs) =
     List.length (filter (fun o => presult_failed (po_result o)) (pool_run pl rqs)).
 Proof.
   intros pl rqs Hcb Hok. unfold total_records, failed_records, pool_run.
